@@ -122,7 +122,7 @@ func (fr *Frame) pureCall(st *State, c *ast.CallExpr, fn *types.Func) []Val {
 	vs := fr.sigResults(sig, fn.Name())
 	// fmt.Errorf / errors.New results are non-nil
 	switch fn.FullName() {
-	case "fmt.Errorf", "errors.New":
+	case "fmt.Errorf", "errors.New", "google.golang.org/grpc/status.Error", "google.golang.org/grpc/status.Errorf":
 		fr.x.u.fact("(> " + vs[0].T + " 0)")
 	}
 	return vs
